@@ -5,7 +5,7 @@ sys.path.insert(0, os.path.join(os.path.dirname(os.path.abspath(__file__)), '..'
 from lib import vlib
 mod = sys.argv[1]
 for c in sys.argv[2:]:
-    r = vlib.tlc('cache', mod, c, workers=int(os.environ.get('W', '4')), timeout=int(os.environ.get('T', '300')),
+    r = vlib.tlc('cacheproto', mod, c, workers=int(os.environ.get('W', '4')), timeout=int(os.environ.get('T', '300')),
                  extra=os.environ.get('X', '').split() or None)
     print(c, r.summary(), r.error or '')
     if os.environ.get('V'):
